@@ -28,6 +28,7 @@ pub fn to_argv(tok: &str, rng: &mut Rng) -> Vec<String> {
         "print0" => vec![s("-print0")],
         "prune" => vec![s("-prune")],
         "quit" => vec![s("-quit")],
+        "delete" => vec![s("-delete")],
         "depth" => vec![s("-depth")],
         "d" => vec![s("-d")],
         "sorted" => vec![s("-sorted")],
